@@ -34,6 +34,7 @@ type c15Case struct {
 	HeaderS int       `json:"header_s"`
 	TLSS    int       `json:"tls_s"`
 	PPS     int       `json:"pp_s"`
+	WriteS  int       `json:"write_s"` // limit on writing one response to the client (0: none)
 	Peers   []c15Peer `json:"peers"`
 	ProbeAt int       `json:"probe_at_ms"` // when the well-behaved client shows up
 	WOne    int       `json:"w_one"`
@@ -66,6 +67,7 @@ func genC15(t *tape.Tape, tier string) any {
 		c.Peers = append(c.Peers, c15Peer{Kind: kinds[t.Intn(len(kinds))], K: 1 + t.Intn(60)})
 	}
 	c.ProbeAt = []int{0, 1, 500, 1500}[t.Pick(3, 2, 2, 1)]
+	c.WriteS = []int{0, 2, 15, 90}[t.Pick(3, 1, 1, 1)]
 	c.WOne = t.Pick(6, 2, 1)
 	c.WRand = t.Pick(2, 4, 2) * 2
 	return c
@@ -158,6 +160,7 @@ func runC15(env *core.Env, ci any) {
 		Config: func(cfg *forwarder.HTTPProxyConfig) {
 			cfg.ProxyLocalhost = forwarder.AllowProxyLocalhost
 			cfg.IdleTimeout, cfg.ReadHeaderTimeout = idle, hdr
+			cfg.WriteTimeout = time.Duration(c.WriteS) * time.Second
 			cfg.TLSServerConfig.HandshakeTimeout = tlsTO
 			if hasTLS {
 				cp, kp := simtls.PEMPair(ca.ValidLeaf("proxy.example", ipSUT))
@@ -526,7 +529,7 @@ func init() {
 		Shape: func(ci any) string {
 			c := ci.(*c15Case)
 			var sb strings.Builder
-			fmt.Fprintf(&sb, "%s/i%d/h%d/t%d/p%d/pr%d", c.Stack, c.IdleS, c.HeaderS, c.TLSS, c.PPS, c.ProbeAt)
+			fmt.Fprintf(&sb, "%s/i%d/h%d/t%d/p%d/w%d/pr%d", c.Stack, c.IdleS, c.HeaderS, c.TLSS, c.PPS, c.WriteS, c.ProbeAt)
 			for _, p := range c.Peers {
 				fmt.Fprintf(&sb, "/%s", p.Kind)
 			}
@@ -534,7 +537,7 @@ func init() {
 		},
 		Real:        append([]string{"martian readRequest deadlines, maybeHandshakeTLS, handleMITM handshake timeout, proxyproto header timeout, accept loop"}, realForwarder...),
 		Stub:        stubCommon,
-		Rule:        "listener stacking (plain, TLS, PROXY, PROXY+TLS, MITM) x per-run idle / read-header / TLS-handshake / PROXY-header limits x 0-16 peers stalled at drawn points (no byte, after k bytes of a PROXY header / TLS ClientHello / request head, between requests, after a MITM'd CONNECT's 200 with or without ClientHello bytes) or waiting on an origin slower than every limit; a well-behaved client connects meanwhile. All limits run on the fake clock. Oracle: closing time == phase start + applicable limit (never earlier; at most 200 ms later); slow origins never cause a close; the well-behaved client is answered with zero simulated time elapsed. Non-trivial = at least one stalled peer judged.",
+		Rule:        "listener stacking (plain, TLS, PROXY, PROXY+TLS, MITM) x per-run idle / read-header / TLS-handshake / PROXY-header / response-write limits x 0-16 peers stalled at drawn points (no byte, after k bytes of a PROXY header / TLS ClientHello / request head, between requests, after a MITM'd CONNECT's 200 with or without ClientHello bytes) or waiting on an origin slower than every limit; a well-behaved client connects meanwhile. All limits run on the fake clock. Oracle: closing time == phase start + applicable limit (never earlier; at most 200 ms later); slow origins never cause a close; the well-behaved client is answered with zero simulated time elapsed. Non-trivial = at least one stalled peer judged.",
 		Assumptions: []string{"after a MITM'd CONNECT's 200 and before the first ClientHello byte the statement does not say which limit applies: closure is required between min and max of idle-timeout and tls-handshake-timeout", "on a PROXY+TLS listener a peer stalled inside its PROXY header may be closed anywhere between min(header timeout, TLS handshake timeout) and the header timeout"},
 	})
 }
